@@ -794,7 +794,9 @@ func runC13(c *Ctx) {
 									continue
 								}
 								// edge i carries len(pe): it must be selected only where len(pe) > / >= len(po)
-								larger := CmpEdges(merge, func(l, r ssa.Value) bool { return isLenOf(l, pe) && (isLenOf(r, po) || r == o) || l == e && (isLenOf(r, po) || r == o) },
+								larger := CmpEdges(merge, func(l, r ssa.Value) bool {
+									return isLenOf(l, pe) && (isLenOf(r, po) || r == o) || l == e && (isLenOf(r, po) || r == o)
+								},
 									func(rel string, truth bool) bool {
 										return (rel == ">" || rel == ">=") && truth || (rel == "<" || rel == "<=") && !truth
 									})
